@@ -24,10 +24,11 @@ REQUIRED_PROBES = {"quick": ("cut_in_length", "cut_in_header", "cut_in_body", "m
                                 "single_byte_segments", "outbound_multi_packet", "body_ge_64k")}
 EVIDENCE = {
     "level": "exploration",
-    "rule": ("seeded frame lists (header fields with boundary bias, body lengths 0..3 MiB) and seeded partitions of "
-             "the concatenated inbound byte stream; a run is non-trivial when at least one cut fell inside a frame "
-             "or a segment carried more than one frame; distinct = distinct (sorted cut classes, #frames bucket, "
-             "max body bucket, outbound packetisation, scheduler) tuples"),
+    "rule": ("seeded frame lists (header fields with boundary bias, body lengths 0..3 MiB) and seeded partitions "
+             "of the concatenated inbound byte stream; a run is non-trivial when at least one cut fell inside a "
+             "frame or a segment carried more than one frame; in a quarter of the runs an earlier connection of "
+             "the same endpoint ended 1-200 bytes into a frame (FIN/RST) before this one; distinct = distinct "
+             "(sorted cut classes, #frames bucket, max body bucket, outbound packetisation, scheduler) tuples"),
     "real": ["secsgem.hsms.HsmsProtocol", "secsgem.common.ProtocolDispatcher", "secsgem.common.ByteQueue",
              "secsgem.hsms.HsmsBlock/HsmsHeader", "secsgem.common.TcpServerConnection/TcpClientConnection"],
     "stub": ["socket/select (SimSocket)", "threading/queue/time facades", "peer (reference E37 codec)"],
